@@ -33,6 +33,12 @@ def _conv():
     if _CONV is None:
         from lsprotocol import converters
 
+        try:
+            from .xhrt import foreign_history
+
+            foreign_history()
+        except ImportError:  # plain replay without the overlay venv
+            pass
         _CONV = converters.get_converter()
     return _CONV
 
